@@ -1,0 +1,27 @@
+// Copyright The gittuf Authors
+// SPDX-License-Identifier: Apache-2.0
+
+//go:build verif
+
+// gvc contracts (comment-only, read under the "verif" build tag).
+
+package propagation
+
+//@ # ---- C18: propagation copies exactly the upstream subtree and is idempotent ----
+//@ func [C18] PropagateChangesFromUpstreamRepository -> (err)
+//@   requires downstreamRepo != nil && upstreamRepo != nil
+//@   requires realDirectives: forall i :: 0 <= i && i < len(details) ==> notNil(details[i])
+//@   requires logTipWellFormed: refSet[rsl.Ref] ==> pOK(cmsg(refTip[rsl.Ref]))
+//@   # closed world: an entry the log reader returns is one of the module's reference-updater entry types
+//@   assumeafter GetLatestReferenceUpdaterEntry :: isNil(r0) || typeIs(r0, rsl.ReferenceUpdaterEntry)
+//@   assigns ghost faults, ghost refTip, ghost refSet, ghost objSet, ghost repoEpoch, fresh(rsl.ReferenceEntry.*), fresh(rsl.AnnotationEntry.*), fresh(rsl.PropagationEntry.*), fresh(elems Hash), fresh(elems *rsl.AnnotationEntry), fresh(elems rsl.GetLatestReferenceUpdaterEntryOption), fresh(rsl.GetLatestReferenceUpdaterEntryOptions.*)
+//@   loop 1:
+//@     invariant tipOK: refSet[rsl.Ref] ==> pOK(cmsg(refTip[rsl.Ref]))
+//@     # idempotence: a directive whose downstream path already holds exactly the content to propagate (the upstream
+//@     # tree, or the sub-path the directive names) creates no commit and no log entry
+//@     invariant [C18] nothingCreatedWhenUpToDate: !currentPathTreeID.IsZero() && currentPathTreeID == ite(pdUpPath(detail) != "" && treeHasPath(upstreamTreeID, pdUpPath(detail)), treePathID(upstreamTreeID, pdUpPath(detail)), upstreamTreeID) ==> repoEpoch == atStart(repoEpoch) && refTip[rsl.Ref] == atStart(refTip[rsl.Ref]) && refSet[rsl.Ref] == atStart(refSet[rsl.Ref])
+//@     # a commit is created only together with a propagation entry that names the downstream reference, that commit,
+//@     # the upstream location and the upstream entry used; the commit's tree holds the upstream content at the
+//@     # downstream path
+//@     invariant [C18] createdMeansRecorded: repoEpoch != atStart(repoEpoch) ==> repoEpoch == atStart(repoEpoch) + 1 && refSet[rsl.Ref] && pKind(cmsg(refTip[rsl.Ref])) == 3 && pRef(cmsg(refTip[rsl.Ref])) == pdDownRef(detail) && pTarget(cmsg(refTip[rsl.Ref])) == rRef(downstreamRepo, repoEpoch, pdDownRef(detail)) && pUpRepo(cmsg(refTip[rsl.Ref])) == pdUpRepo(detail) && pUpEntry(cmsg(refTip[rsl.Ref])) == latestUpstreamEntry.GetID() && treePathID(ctree(pTarget(cmsg(refTip[rsl.Ref]))), pdDownPath(detail)) == upstreamContent(latestUpstreamEntry.GetTargetID(), pdUpPath(detail))
+//@     invariant [C18] entryOnlyWithCommit: repoEpoch == atStart(repoEpoch) ==> refTip[rsl.Ref] == atStart(refTip[rsl.Ref]) && refSet[rsl.Ref] == atStart(refSet[rsl.Ref])
